@@ -2545,6 +2545,24 @@ MUTANTS += [
 ]
 
 
+_GA_USE = ("        elif isinstance(member, Use):\n          pending.append(iter(self.groups[member.group].members))\n          break\n")
+MUTANTS += [
+    # R-EXPAND-TOTAL: the expansion the duplicate rule runs on never de-duplicates
+    {"id": "expansion-enters-each-group-once", "expect": ("R-EXPAND-TOTAL", "Schema._group_attrs:entered"),
+     "edits": [(FILE, "    pending = [iter(self.groups[name].members)]\n", "    entered = {name}\n    pending = [iter(self.groups[name].members)]\n"),
+               (FILE, _GA_USE, "        elif isinstance(member, Use) and member.group not in entered:\n          entered.add(member.group)\n"
+                "          pending.append(iter(self.groups[member.group].members))\n          break\n")]},
+    {"id": "expansion-skips-seen-group-with-continue", "expect": ("R-EXPAND-TOTAL", "Schema._group_attrs:seen"),
+     "edits": [(FILE, "    pending = [iter(self.groups[name].members)]\n", "    seen = set()\n    pending = [iter(self.groups[name].members)]\n"),
+               (FILE, _GA_USE, "        elif isinstance(member, Use):\n          if member.group in seen:\n            continue\n          seen.add(member.group)\n"
+                "          pending.append(iter(self.groups[member.group].members))\n          break\n")]},
+    {"id": "ctl-expansion-use-branch-first", "expect": None,
+     "edits": [(FILE, "        if isinstance(member, Attr):\n          out.append(member)\n" + _GA_USE,
+                "        if isinstance(member, Use):\n          pending.append(iter(self.groups[member.group].members))\n          break\n"
+                "        elif isinstance(member, Attr):\n          out.append(member)\n")]},
+]
+
+
 def selftest(res):
     from .. import r_misc
     r_misc.run_mutants("C41", res, MUTANTS, parts=("doc/generate",))
